@@ -42,6 +42,11 @@ def plan(tier, seed):
     for c in base:
         if 1 <= len(c["rules"]) <= p["perm_depth"] or (c["name"].startswith("sharp") and 1 <= len(c["rules"]) <= 4):
             cases.append(dict(c, mode="perm"))
+    # integer vocabularies {0,1,2} (token ids / bytes): internal renumbering of nonterminals must stay apart from them
+    bi, si, ti = gram.grammar_cases(2 if tier != "thorough" else 3, terms=("a", "b", "c"), with_sharp=False)
+    cases += [dict(c, mode="mask", ints=True) for c in bi]
+    nstates += si
+    ntrans += ti
     return {
         "cases": cases,
         "states": nstates,
@@ -86,7 +91,7 @@ def _oracle(rules, V):
 def _check_lm(lm, offered, V2, ctxlen, inp0, alg, fails, pred_suffix=""):
     evals = 0
     nonempty = 0
-    for ctx in strings_upto(sorted(V2), ctxlen):
+    for ctx in strings_upto(sorted(V2, key=repr), ctxlen):
         want = offered(ctx)
         if want:
             nonempty += 1
@@ -101,7 +106,7 @@ def _check_lm(lm, offered, V2, ctxlen, inp0, alg, fails, pred_suffix=""):
             vals_ok = True
         evals += 1
         if have != want or not vals_ok:
-            fails.append(_fail(f"{alg}: mask == viable continuations{pred_suffix}", dict(inp0, alg=alg, context=list(ctx)), have if isinstance(have, str) else sorted(have), sorted(want)))
+            fails.append(_fail(f"{alg}: mask == viable continuations{pred_suffix}", dict(inp0, alg=alg, context=list(ctx)), have if isinstance(have, str) else sorted(have, key=repr), sorted(want, key=repr)))
     return evals, nonempty
 
 
@@ -113,7 +118,7 @@ def run_mask(case):
     fails = []
     evals = 0
     nonempty = 0
-    inp0 = {"rules": case["rules"]}
+    inp0 = {"rules": case["rules"]} if not case.get("ints") else {"rules": case["rules"], "tokens": "a,b,c -> 0,1,2"}
     n = len(rules)
     gb = gram.build(rules, Boolean, [Boolean.one] * n, V=V)
     gf = gram.build(rules, Float, [0.5] * n, V=V)
@@ -133,7 +138,7 @@ def run_mask(case):
             evals += e
             nonempty += ne
             # whole-string acceptance through the chain rule
-            for x in strings_upto(sorted(V), 2):
+            for x in strings_upto(sorted(V, key=repr), 2):
                 want = float(member(rules, "S", V, x))
                 try:
                     have = lm(x + (EOS,))
